@@ -6,7 +6,7 @@
 From Coq Require Import ZArith List Bool.
 From RP Require Sched.Model Sched.NodeMap Sched.Inv Sched.SchedProofs Sched.RunProofs
                Sched.LiveProofs Sched.CancelProofs Sched.ConsProofs Sched.CancelRunProofs.
-From RP Require Exec.Model Exec.Oracle Exec.Local Exec.Proj Exec.Proofs Exec.CancelProofs Exec.ExamProofs Exec.PollProofs Exec.HandlerProofs.
+From RP Require Exec.Model Exec.Oracle Exec.Local Exec.Proj Exec.Proofs Exec.CancelProofs Exec.ExamProofs Exec.PollProofs Exec.HandlerProofs Exec.KillProofs.
 From RP Require Relay.Model Relay.Oracle Relay.Proofs Relay.History Relay.Frame Relay.OracleProofs.
 Import ListNotations.
 
